@@ -45,6 +45,9 @@ def dec_content(j):
         return bytes.fromhex(v)
     if t == 'int':
         return int(v)
+    if t == 'bool':
+        # only written literally by C15's related grid (an int subclass equal to 0 / 1); never generated elsewhere
+        return bool(v)
     if t == 'tuple':
         return tuple([dec_content(v[0])] + list(v[1:]))
     if t == 'list':
